@@ -277,6 +277,12 @@ class Run:
     # ---- open
     def open(self):
         self.prs, data = open_start(self.start, self.rnd)
+        if self.start["kind"] != "default" and self.rnd.random() < 0.35:
+            # the deck is saved once straight after opening, before anything (the slide collection in particular) has been
+            # touched: whatever that first save computes and keeps must not outlive the renaming of parts that follows
+            self.prs.save(io.BytesIO())
+            self.log.append("save-before-anything-else")
+            self.acc.count("histories_starting_with_a_save_before_any_access")
         if self.profile in ("xml", "mixed", "sat"):
             from . import ops
 
